@@ -225,6 +225,10 @@ func (s *SencBox) ParseReadBox(perSampleIVSize byte, saiz *SaizBox) error {
 		default:
 			return fmt.Errorf("strange derived PerSampleIVSize: %d", perSampleIVSize)
 		}
+		if sr.AccError() != nil {
+			s.IVs = nil
+			return fmt.Errorf("senc: sample count %d too big for %d bytes of data", s.SampleCount, nrBytesLeft)
+		}
 		s.readButNotParsed = false
 		return nil
 	}
